@@ -413,6 +413,15 @@ func (e *Engine) exec(f *frame, in ssa.Instruction) {
 		e.set(f, x, e.binop(x.Op, e.get(f, x.X), e.get(f, x.Y), x.X.Type(), x.Y.Type()))
 	case *ssa.Store:
 		p := e.get(f, x.Addr).(Ptr)
+		if p.Idx != nil {
+			nv := e.get(f, x.Val).(*smt.Term)
+			for k := 0; k < p.N; k++ {
+				o := e.sub(p.Arr, p.Off+k)
+				old := e.load(o).(*smt.Term)
+				e.store(o, e.ctx.Ite(e.ctx.Eq(p.Idx, e.ctx.BV(uint64(k), p.Idx.W)), nv, old))
+			}
+			break
+		}
 		if p.Obj == nil {
 			e.goPanicRT("invalid memory address or nil pointer dereference")
 		}
@@ -531,6 +540,13 @@ func (e *Engine) unop(f *frame, x *ssa.UnOp) Value {
 	switch x.Op {
 	case token.MUL: // load
 		p := v.(Ptr)
+		if p.Idx != nil {
+			r := e.load(e.sub(p.Arr, p.Off+p.N-1)).(*smt.Term)
+			for k := p.N - 2; k >= 0; k-- {
+				r = e.ctx.Ite(e.ctx.Eq(p.Idx, e.ctx.BV(uint64(k), p.Idx.W)), e.load(e.sub(p.Arr, p.Off+k)).(*smt.Term), r)
+			}
+			return r
+		}
 		if p.Obj == nil {
 			e.goPanicRT("invalid memory address or nil pointer dereference")
 		}
@@ -590,7 +606,11 @@ func (e *Engine) indexAddr(f *frame, x *ssa.IndexAddr) Value {
 	}
 	i := e.elemIndex(idx, n, "")
 	if i < 0 {
-		// symbolic index: fork over the feasible positions
+		// symbolic index into an array of scalars: keep the pointer symbolic (loads become
+		// ite chains, stores conditional updates); otherwise fork over the feasible positions
+		if n <= 4096 && !isAggregate(arr.T.Underlying().(*types.Array).Elem()) && isScalarType(arr.T.Underlying().(*types.Array).Elem()) {
+			return Ptr{Arr: arr, Off: off, N: n, Idx: idx}
+		}
 		i = e.forkIndex(idx, n)
 	}
 	return Ptr{Obj: e.sub(arr, off+i)}
@@ -821,4 +841,9 @@ func (e *Engine) tolerantCall(f *frame, x *ssa.Call) (r Value) {
 		}
 	}()
 	return e.call(f, &x.Call)
+}
+
+func isScalarType(t types.Type) bool {
+	b, ok := t.Underlying().(*types.Basic)
+	return ok && b.Info()&(types.IsInteger|types.IsBoolean) != 0
 }
